@@ -24,9 +24,9 @@ Proof. intros. unfold mon_run. rewrite fold_left_app. reflexivity. Qed.
 
 Lemma mon_step_bad : forall m e, m_bad m = true -> m_bad (mon_step m e) = true.
 Proof.
-  intros m e H. destruct e as [k|k|k b| |k b|k x|k]; cbn [mon_step]; try exact H;
+  intros m e H. destruct e as [|k|k|k b| |k b|k x|k]; cbn [mon_step]; try exact H;
     destruct (nth_error (m_st m) k) as [[| |b'|]|]; cbn; try exact H;
-    try (destruct (body_eqb b b'); cbn; auto); try (destruct (m_lost m); cbn; auto).
+    try (destruct (body_eqb b b'); cbn; auto); try (destruct (m_lost m || negb (m_conn m)); cbn; auto).
 Qed.
 
 Definition nocomp (k : nat) (p : list event) : Prop := forall e, In e p -> completion_of k e = false.
@@ -44,10 +44,11 @@ Definition kinv (p : list event) (st : option mstat) (k : nat) : Prop :=
 
 Record minv (p : list event) (m : mon) : Prop := {
   mi_lost : m_lost m = true -> In ELoss p;
+  mi_conn : m_conn m = false -> ~ In EConnected p;
   mi_k : forall k, kinv p (nth_error (m_st m) k) k;
   mi_ret : forall h1 h2 k b, p = h1 ++ ERet k b :: h2 -> In (EResp k b) h1;
-  mi_raise : forall h1 h2 k e, p = h1 ++ ERaise k e :: h2 -> In ELoss h1;
-  mi_noop : forall h1 h2 k, p = h1 ++ ENoop k :: h2 -> In ELoss h1
+  mi_raise : forall h1 h2 k e, p = h1 ++ ERaise k e :: h2 -> In ELoss h1 \/ ~ In EConnected h1;
+  mi_noop : forall h1 h2 k, p = h1 ++ ENoop k :: h2 -> In ELoss h1 \/ ~ In EConnected h1
 }.
 
 Lemma snoc_split : forall A (p : list A) e h1 x h2, p ++ [e] = h1 ++ x :: h2 ->
@@ -100,11 +101,11 @@ Qed.
 Lemma minv_globals_snoc : forall p m e,
   minv p m ->
   (forall k b, e = ERet k b -> In (EResp k b) p) ->
-  (forall k x, e = ERaise k x -> In ELoss p) ->
-  (forall k, e = ENoop k -> In ELoss p) ->
+  (forall k x, e = ERaise k x -> In ELoss p \/ ~ In EConnected p) ->
+  (forall k, e = ENoop k -> In ELoss p \/ ~ In EConnected p) ->
   (forall h1 h2 k b, p ++ [e] = h1 ++ ERet k b :: h2 -> In (EResp k b) h1) /\
-  (forall h1 h2 k x, p ++ [e] = h1 ++ ERaise k x :: h2 -> In ELoss h1) /\
-  (forall h1 h2 k, p ++ [e] = h1 ++ ENoop k :: h2 -> In ELoss h1).
+  (forall h1 h2 k x, p ++ [e] = h1 ++ ERaise k x :: h2 -> In ELoss h1 \/ ~ In EConnected h1) /\
+  (forall h1 h2 k, p ++ [e] = h1 ++ ENoop k :: h2 -> In ELoss h1 \/ ~ In EConnected h1).
 Proof.
   intros p m e Hm H1 H2 H3. repeat split.
   - intros h1 h2 k b Heq. apply snoc_split in Heq. destruct Heq as [[_ [-> He]]|[h2' [_ Hp]]].
@@ -130,11 +131,23 @@ Proof.
   intros p m e Hm Hb.
   assert (Hlost_keep : forall m', m_lost m' = m_lost m -> m_lost m' = true -> In ELoss (p ++ [e])).
   { intros m' E H. rewrite E in H. apply in_or_app. left. exact (mi_lost p m Hm H). }
-  destruct e as [j|j|j b| |j b|j x|j]; cbn [mon_step] in *.
+  assert (Hconn_keep : e <> EConnected -> forall m', m_conn m' = m_conn m -> m_conn m' = false -> ~ In EConnected (p ++ [e])).
+  { intros Hne m' E H Hin. rewrite E in H. apply in_app_or in Hin. destruct Hin as [Hin|[Hin|[]]].
+    - exact (mi_conn p m Hm H Hin).
+    - exact (Hne Hin). }
+  assert (Hjust : m_lost m || negb (m_conn m) = true -> In ELoss p \/ ~ In EConnected p).
+  { intros H. apply orb_true_iff in H. destruct H as [H|H].
+    - left. exact (mi_lost p m Hm H).
+    - right. apply negb_true_iff in H. exact (mi_conn p m Hm H). }
+  destruct e as [|j|j|j b| |j b|j x|j]; cbn [mon_step] in *.
+  - (* EConnected *)
+    destruct (minv_globals_snoc p m EConnected Hm) as [G1 [G2 G3]]; try (intros; discriminate).
+    constructor; [apply Hlost_keep; reflexivity|cbn; discriminate| |exact G1|exact G2|exact G3].
+    intros k. cbn [m_st]. apply kinv_snoc_other; [exact (mi_k p m Hm k)|reflexivity|discriminate].
   - (* ECall j *)
     destruct (nth_error (m_st m) j) as [[| |b'|]|] eqn:Hj; try (cbn in Hb; discriminate).
     destruct (minv_globals_snoc p m (ECall j) Hm) as [G1 [G2 G3]]; try (intros; discriminate).
-    constructor; [apply Hlost_keep; reflexivity| |exact G1|exact G2|exact G3].
+    constructor; [apply Hlost_keep; reflexivity|apply Hconn_keep; [discriminate|reflexivity]| |exact G1|exact G2|exact G3].
     intros k. unfold mupd. cbn [m_st]. rewrite nth_error_upd.
     destruct (Nat.eqb j k) eqn:Ejk.
     + apply Nat.eqb_eq in Ejk. subst k. rewrite Hj. cbn [option_map kinv].
@@ -144,15 +157,15 @@ Proof.
       intros E. inversion E. subst. rewrite Nat.eqb_refl in Ejk. discriminate.
   - (* ESent *)
     destruct (minv_globals_snoc p m (ESent j) Hm) as [G1 [G2 G3]]; try (intros; discriminate).
-    constructor; [apply Hlost_keep; reflexivity| |exact G1|exact G2|exact G3].
+    constructor; [apply Hlost_keep; reflexivity|apply Hconn_keep; [discriminate|reflexivity]| |exact G1|exact G2|exact G3].
     intros k. apply kinv_snoc_other; [exact (mi_k p m Hm k)|reflexivity|discriminate].
   - (* EResp j b *)
     destruct (minv_globals_snoc p m (EResp j b) Hm) as [G1 [G2 G3]]; try (intros; discriminate).
     assert (Hother : forall k, kinv (p ++ [EResp j b]) (nth_error (m_st m) k) k).
     { intros k. apply kinv_snoc_other; [exact (mi_k p m Hm k)|reflexivity|discriminate]. }
     destruct (nth_error (m_st m) j) as [[| |b'|]|] eqn:Hj;
-      try (constructor; [apply Hlost_keep; reflexivity|exact Hother|exact G1|exact G2|exact G3]).
-    constructor; [apply Hlost_keep; reflexivity| |exact G1|exact G2|exact G3].
+      try (constructor; [apply Hlost_keep; reflexivity|apply Hconn_keep; [discriminate|reflexivity]|exact Hother|exact G1|exact G2|exact G3]).
+    constructor; [apply Hlost_keep; reflexivity|apply Hconn_keep; [discriminate|reflexivity]| |exact G1|exact G2|exact G3].
     intros k. unfold mupd. cbn [m_st]. rewrite nth_error_upd.
     destruct (Nat.eqb j k) eqn:Ejk; [|exact (Hother k)].
     apply Nat.eqb_eq in Ejk. subst k. rewrite Hj. cbn [option_map kinv].
@@ -160,7 +173,7 @@ Proof.
     split; [exact Hc|]. split; [exact Hn|]. apply in_or_app. right. left. reflexivity.
   - (* ELoss *)
     destruct (minv_globals_snoc p m ELoss Hm) as [G1 [G2 G3]]; try (intros; discriminate).
-    constructor; [intros _; apply in_or_app; right; left; reflexivity| |exact G1|exact G2|exact G3].
+    constructor; [intros _; apply in_or_app; right; left; reflexivity|apply Hconn_keep; [discriminate|reflexivity]| |exact G1|exact G2|exact G3].
     intros k. cbn [m_st]. apply kinv_snoc_other; [exact (mi_k p m Hm k)|reflexivity|discriminate].
   - (* ERet j b *)
     destruct (nth_error (m_st m) j) as [[| |b'|]|] eqn:Hj; try (cbn in Hb; discriminate).
@@ -169,7 +182,7 @@ Proof.
     pose proof (mi_k p m Hm j) as Hk. rewrite Hj in Hk. cbn [kinv] in Hk. destruct Hk as [Hc [Hn Hr]].
     destruct (minv_globals_snoc p m (ERet j b) Hm) as [G1 [G2 G3]]; try (intros; discriminate).
     { intros k0 b0 E. inversion E; subst. exact Hr. }
-    constructor; [apply Hlost_keep; reflexivity| |exact G1|exact G2|exact G3].
+    constructor; [apply Hlost_keep; reflexivity|apply Hconn_keep; [discriminate|reflexivity]| |exact G1|exact G2|exact G3].
     intros k. unfold mupd. cbn [m_st]. rewrite nth_error_upd.
     destruct (Nat.eqb j k) eqn:Ejk.
     + apply Nat.eqb_eq in Ejk. subst k. rewrite Hj. cbn [option_map kinv].
@@ -178,12 +191,12 @@ Proof.
       cbn. apply Nat.eqb_neq. intros E. subst. rewrite Nat.eqb_refl in Ejk. discriminate.
   - (* ERaise j x *)
     destruct (nth_error (m_st m) j) as [[| |b'|]|] eqn:Hj; try (cbn in Hb; discriminate).
-    destruct (m_lost m) eqn:El; [|cbn in Hb; discriminate].
-    pose proof (mi_lost p m Hm El) as HL.
+    destruct (m_lost m || negb (m_conn m)) eqn:El; [|cbn in Hb; discriminate].
+    pose proof (Hjust eq_refl) as HL.
     pose proof (mi_k p m Hm j) as Hk. rewrite Hj in Hk. cbn [kinv] in Hk. destruct Hk as [Hc Hn].
     destruct (minv_globals_snoc p m (ERaise j x) Hm) as [G1 [G2 G3]]; try (intros; discriminate).
     { intros; exact HL. }
-    constructor; [intros _; apply in_or_app; left; exact HL| |exact G1|exact G2|exact G3].
+    constructor; [apply Hlost_keep; reflexivity|apply Hconn_keep; [discriminate|reflexivity]| |exact G1|exact G2|exact G3].
     intros k. unfold mupd. cbn [m_st]. rewrite nth_error_upd.
     destruct (Nat.eqb j k) eqn:Ejk.
     + apply Nat.eqb_eq in Ejk. subst k. rewrite Hj. cbn [option_map kinv].
@@ -192,12 +205,12 @@ Proof.
       cbn. apply Nat.eqb_neq. intros E. subst. rewrite Nat.eqb_refl in Ejk. discriminate.
   - (* ENoop j *)
     destruct (nth_error (m_st m) j) as [[| |b'|]|] eqn:Hj; try (cbn in Hb; discriminate).
-    destruct (m_lost m) eqn:El; [|cbn in Hb; discriminate].
-    pose proof (mi_lost p m Hm El) as HL.
+    destruct (m_lost m || negb (m_conn m)) eqn:El; [|cbn in Hb; discriminate].
+    pose proof (Hjust eq_refl) as HL.
     pose proof (mi_k p m Hm j) as Hk. rewrite Hj in Hk. cbn [kinv] in Hk. destruct Hk as [Hc Hn].
     destruct (minv_globals_snoc p m (ENoop j) Hm) as [G1 [G2 G3]]; try (intros; discriminate).
     { intros; exact HL. }
-    constructor; [intros _; apply in_or_app; left; exact HL| |exact G1|exact G2|exact G3].
+    constructor; [apply Hlost_keep; reflexivity|apply Hconn_keep; [discriminate|reflexivity]| |exact G1|exact G2|exact G3].
     intros k. unfold mupd. cbn [m_st]. rewrite nth_error_upd.
     destruct (Nat.eqb j k) eqn:Ejk.
     + apply Nat.eqb_eq in Ejk. subst k. rewrite Hj. cbn [option_map kinv].
@@ -210,6 +223,7 @@ Lemma minv_init : forall n, minv [] (mon_init n).
 Proof.
   intros n. constructor.
   - cbn. discriminate.
+  - intros _ [].
   - intros k. unfold mon_init. cbn [m_st].
     destruct (nth_error (repeat MIdle n) k) as [x|] eqn:E.
     + apply nth_error_In in E. apply repeat_spec in E. subst x. cbn. split; [tauto|intros e []].
@@ -256,10 +270,10 @@ Definition pend_ok (c : call) : Prop :=
 Record inv (s : state) : Prop := {
   i_nodup : NoDup (pending s);
   i_pend : forall k, In k (pending s) -> exists c, nth_error (calls s) k = Some c /\ pend_ok c;
-  i_lst : lst s = LRun \/ lst s = LExit;
+  i_lst : lst s = LRun \/ lst s = LExit \/ lst s = LInit;
   i_writer : writer s = is_run (lst s);
   i_reg : forall k c, nth_error (calls s) k = Some c -> (c_pc c = PRegd \/ c_pc c = PSched \/ c_pc c = PAwait) ->
-                      c_fut c = FUnres -> lst s = LRun -> In k (pending s);
+                      c_fut c = FUnres -> (lst s = LRun \/ lst s = LInit) -> In k (pending s);
   i_await : forall k c, nth_error (calls s) k = Some c -> c_pc c = PAwait -> c_fut c = FUnres -> lst s = LRun
 }.
 
@@ -306,12 +320,12 @@ Proof.
     + apply IH; [assumption|]. intros Hin. apply Hni. right. exact Hin.
 Qed.
 
-Lemma inv_init : forall closers, inv (init closers).
+Lemma inv_init : forall c0 closers, inv (init c0 closers).
 Proof.
-  intros closers. constructor; cbn.
+  intros c0 closers. constructor; cbn.
   - constructor.
   - intros k [].
-  - left; reflexivity.
+  - right; right; reflexivity.
   - reflexivity.
   - intros k c Hn Hp. rewrite nth_error_map in Hn. destruct (nth_error closers k); [|discriminate].
     inversion Hn; subst. cbn in Hp. destruct Hp as [Hp|[Hp|Hp]]; discriminate.
@@ -322,7 +336,7 @@ Qed.
 (* a step that only rewrites call k *)
 Lemma inv_updc : forall s k c f, inv s -> nth_error (calls s) k = Some c ->
   (In k (pending s) -> pend_ok (f c)) ->
-  ((c_pc (f c) = PRegd \/ c_pc (f c) = PSched \/ c_pc (f c) = PAwait) -> c_fut (f c) = FUnres -> lst s = LRun -> In k (pending s)) ->
+  ((c_pc (f c) = PRegd \/ c_pc (f c) = PSched \/ c_pc (f c) = PAwait) -> c_fut (f c) = FUnres -> (lst s = LRun \/ lst s = LInit) -> In k (pending s)) ->
   (c_pc (f c) = PAwait -> c_fut (f c) = FUnres -> lst s = LRun) ->
   inv (updc s k f).
 Proof.
@@ -348,9 +362,9 @@ Proof.
   intros fl e s [Hs Hw] Hp. unfold teardown. rewrite Hs, Hw. constructor; cbn [calls pending lst writer].
   - constructor.
   - intros k [].
-  - right; reflexivity.
+  - right; left; reflexivity.
   - reflexivity.
-  - intros k c _ _ _ H. discriminate.
+  - intros k c _ _ _ [H|H]; discriminate.
   - intros k c Hn Hpc Hf. exfalso. rewrite fail_all_nth in Hn.
     destruct (nth_error (calls s) k) as [c0|] eqn:E; [|discriminate]. inversion Hn; subst c. clear Hn.
     destruct (mem_nat k (pending s)) eqn:Em.
@@ -388,7 +402,7 @@ Ltac pcs := repeat match goal with
 Lemma inv_step : forall fl s a s' ev, fl_ok fl -> inv s -> step fl s a = Some (s', ev) -> inv s'.
 Proof.
   intros fl s a s' ev Hfl Hi Hs.
-  destruct a as [k|k|k|k|k|k ok|ok| | | |]; cbn [step] in Hs.
+  destruct a as [k|k|k|k|k|ok|k ok|ok| | | |]; cbn [step] in Hs.
   - (* AInvoke *)
     destruct (nth_error (calls s) k) as [c|] eqn:Hn; [|discriminate].
     destruct (c_pc c) eqn:Hpc; try discriminate.
@@ -402,7 +416,7 @@ Proof.
     assert (Hnp : ~ In k (pending s)).
     { apply (pend_not s k c Hi Hn). rewrite Hpc. intros H. pcs. }
     assert (Hl : match lst s with LClean e i _ => LClean e i true | l => l end = lst s).
-    { destruct (i_lst s Hi) as [E|E]; rewrite E; reflexivity. }
+    { destruct (i_lst s Hi) as [E|[E|E]]; rewrite E; reflexivity. }
     rewrite Hl in Hs. inversion Hs; subst. clear Hs.
     constructor; unfold with_lst, with_pending, updc, with_calls; cbn [calls pending lst writer].
     + apply NoDup_snoc; [exact (i_nodup s Hi)|exact Hnp].
@@ -432,7 +446,7 @@ Proof.
     + assert (Hr : lst s = LRun) by (apply is_run_true; rewrite <- (i_writer s Hi); exact Hw).
       apply (inv_updc s k c _ Hi Hn).
       * intros Hin. split; [exact (pend_fut s k c Hi Hn Hin)|right; right; left; reflexivity].
-      * cbn. intros _ Hf _. apply (i_reg s Hi k c Hn); [right; left; exact Hpc|exact Hf|exact Hr].
+      * cbn. intros _ Hf _. apply (i_reg s Hi k c Hn); [right; left; exact Hpc|exact Hf|left; exact Hr].
       * intros _ _. exact Hr.
     + apply (inv_updc s k c _ Hi Hn).
       * intros Hin. split; [exact (pend_fut s k c Hi Hn Hin)|right; right; right; reflexivity].
@@ -445,6 +459,17 @@ Proof.
       (apply (inv_updc s k c _ Hi Hn);
        [intros Hin; pose proof (pend_fut s k c Hi Hn Hin) as E; rewrite Hf in E; discriminate
        |cbn; intros H; pcs|cbn; intros H; discriminate]).
+  - (* AConnect *)
+    destruct (lst s) eqn:Hl; try discriminate. destruct ok; inversion Hs; subst; clear Hs.
+    + constructor; cbn [calls pending lst writer].
+      * exact (i_nodup s Hi).
+      * exact (i_pend s Hi).
+      * left; reflexivity.
+      * reflexivity.
+      * intros k c Hn Hp Hf _. apply (i_reg s Hi k c Hn Hp Hf). right. exact Hl.
+      * intros; reflexivity.
+    + apply inv_teardown; [exact Hfl|]. cbn [calls pending with_copen].
+      intros j c Hn Hp Hf. pose proof (i_await s Hi j c Hn Hp Hf) as E. rewrite Hl in E. discriminate.
   - (* AResp *)
     destruct (nth_error (calls s) k) as [c|] eqn:Hn; [|discriminate].
     destruct (c_sent c && is_run (lst s)) eqn:Hg; [|discriminate].
@@ -493,22 +518,22 @@ Proof.
     destruct (is_run (lst s)) eqn:Hr; [|discriminate]. apply is_run_true in Hr.
     inversion Hs; subst; clear Hs. apply inv_teardown; [exact Hfl|exact (inv_await_pending s Hi Hr)].
   - (* AClean: the loop does not exist when a copy is iterated *)
-    destruct (i_lst s Hi) as [E|E]; rewrite E in Hs; discriminate.
+    destruct (i_lst s Hi) as [E|[E|E]]; rewrite E in Hs; discriminate.
 Qed.
 
-Lemma inv_reach : forall fl closers s, fl_ok fl -> reach fl (init closers) s -> inv s.
+Lemma inv_reach : forall fl c0 closers s, fl_ok fl -> reach fl (init c0 closers) s -> inv s.
 Proof.
-  intros fl closers s Hfl Hr. induction Hr as [|s a s' ev Hr IH Hs].
+  intros fl c0 closers s Hfl Hr. induction Hr as [|s a s' ev Hr IH Hs].
   - apply inv_init.
   - exact (inv_step fl s a s' ev Hfl IH Hs).
 Qed.
 
 (* T14.match: every key of pending_responses is unique and its future unresolved *)
-Theorem match_invariant : forall fl closers s, fl_ok fl -> reach fl (init closers) s ->
+Theorem match_invariant : forall fl c0 closers s, fl_ok fl -> reach fl (init c0 closers) s ->
   NoDup (pending s) /\
   forall k, In k (pending s) -> exists c, nth_error (calls s) k = Some c /\ c_fut c = FUnres.
 Proof.
-  intros fl closers s Hfl Hr. pose proof (inv_reach fl closers s Hfl Hr) as Hi.
+  intros fl c0 closers s Hfl Hr. pose proof (inv_reach fl c0 closers s Hfl Hr) as Hi.
   split; [exact (i_nodup s Hi)|].
   intros k Hk. destruct (i_pend s Hi k Hk) as [c [Hn [Hf _]]]. exists c. auto.
 Qed.
@@ -554,7 +579,7 @@ Proof.
     destruct (Hfx c) as [E|[E|[e E]]]; rewrite E in Hf; [exact (Hne Hf)|discriminate|discriminate]. }
   assert (Htd : forall e s0, calls s0 = calls s -> nth_error (calls (teardown fl e s0)) k = Some c' -> False).
   { intros e s0 Hc Ht. apply Hne. apply (teardown_fut fl e s0 k c c' b); [rewrite Hc; exact Hn|exact Ht|exact Hf]. }
-  destruct a as [j|j|j|j|j|j ok|ok| | | |]; cbn [step] in Hs.
+  destruct a as [j|j|j|j|j|ok|j ok|ok| | | |]; cbn [step] in Hs.
   - destruct (nth_error (calls s) j) as [cj|]; [|discriminate]. destruct (c_pc cj); try discriminate.
     exfalso. destruct (c_close cj && negb (running s)); [|destruct (copen s)]; inversion Hs; subst;
       (eapply Hsame; [|exact Hn']; intros x; left; reflexivity).
@@ -566,6 +591,9 @@ Proof.
     exfalso. destruct (writer s); inversion Hs; subst; (eapply Hsame; [|exact Hn']; intros x; left; reflexivity).
   - destruct (nth_error (calls s) j) as [cj|]; [|discriminate]. destruct (c_pc cj); try discriminate.
     exfalso. destruct (c_fut cj); try discriminate; inversion Hs; subst; (eapply Hsame; [|exact Hn']; intros x; left; reflexivity).
+  - exfalso. destruct (lst s); try discriminate. destruct ok; inversion Hs; subst.
+    + cbn [calls] in Hn'. rewrite Hn in Hn'. inversion Hn'; subst. exact (Hne Hf).
+    + exact (Htd _ (with_copen s false) eq_refl Hn').
   - destruct (nth_error (calls s) j) as [cj|] eqn:Hj; [|discriminate].
     destruct (c_sent cj && is_run (lst s)); [|discriminate].
     destruct (mem_nat j (pending s)) eqn:Em.
@@ -597,7 +625,7 @@ Proof.
   - exfalso. destruct (is_run (lst s)); [|discriminate]. inversion Hs; subst. exact (Htd _ (with_running s false) eq_refl Hn').
   - exfalso. destruct (is_run (lst s)); [|discriminate]. inversion Hs; subst. exact (Htd _ s eq_refl Hn').
   - exfalso. destruct (is_run (lst s)); [|discriminate]. inversion Hs; subst. exact (Htd _ (with_copen s false) eq_refl Hn').
-  - exfalso. destruct (lst s) as [|e i d| |]; try discriminate. destruct d.
+  - exfalso. destruct (lst s) as [| |e i d| |]; try discriminate. destruct d.
     + inversion Hs; subst. cbn [calls with_lst] in Hn'. rewrite Hn in Hn'. inversion Hn'; subst. exact (Hne Hf).
     + destruct (nth_error (pending s) i) as [j|]; inversion Hs; subst.
       * eapply Hsame; [|exact Hn']. intros x; right; right; eexists; reflexivity.
@@ -605,13 +633,13 @@ Proof.
 Qed.
 
 (* T14.drain: once the listener has exited nobody waits for a future that nobody will resolve *)
-Theorem drain_invariant : forall fl closers s, fl_ok fl -> reach fl (init closers) s -> lst s = LExit ->
+Theorem drain_invariant : forall fl c0 closers s, fl_ok fl -> reach fl (init c0 closers) s -> lst s = LExit ->
   writer s = false /\
   (forall k, In k (pending s) -> exists c, nth_error (calls s) k = Some c /\ c_fut c = FUnres /\
      (c_pc c = PRegd \/ c_pc c = PSched \/ c_pc c = PDone (RExc XAttr))) /\
   (forall k c, nth_error (calls s) k = Some c -> c_pc c = PAwait -> c_fut c <> FUnres).
 Proof.
-  intros fl closers s Hfl Hr Hl. pose proof (inv_reach fl closers s Hfl Hr) as Hi.
+  intros fl c0 closers s Hfl Hr Hl. pose proof (inv_reach fl c0 closers s Hfl Hr) as Hi.
   assert (Haw : forall k c, nth_error (calls s) k = Some c -> c_pc c = PAwait -> c_fut c <> FUnres).
   { intros k c Hn Hp Hf. pose proof (i_await s Hi k c Hn Hp Hf) as E. rewrite Hl in E. discriminate. }
   split; [rewrite (i_writer s Hi), Hl; reflexivity|]. split; [|exact Haw].
@@ -619,18 +647,35 @@ Proof.
   destruct Hp as [Hp|[Hp|[Hp|Hp]]]; auto. exfalso. exact (Haw k c Hn Hp Hf).
 Qed.
 
+(* calls racing run_client(): before connect() has returned *)
+Theorem before_connect_prompt : forall fl c0 closers s, fl_ok fl -> reach fl (init c0 closers) s -> lst s = LInit ->
+  writer s = false /\
+  (forall k c, nth_error (calls s) k = Some c -> c_pc c = PSched ->
+     exists s', step fl s (ASend k) = Some (s', [ERaise k XAttr])) /\
+  (forall k c, nth_error (calls s) k = Some c -> c_pc c = PIdle -> copen s = false -> c_close c = false ->
+     exists s', step fl s (AInvoke k) = Some (s', [ECall k; ERaise k XNotEst])) /\
+  (forall k c, nth_error (calls s) k = Some c -> c_pc c = PAwait -> c_fut c <> FUnres).
+Proof.
+  intros fl c0 closers s Hfl Hr Hl. pose proof (inv_reach fl c0 closers s Hfl Hr) as Hi.
+  assert (Hw : writer s = false) by (rewrite (i_writer s Hi), Hl; reflexivity).
+  split; [exact Hw|]. split; [|split].
+  - intros k c Hn Hp. cbn [step]. rewrite Hn, Hp, Hw. eexists. reflexivity.
+  - intros k c Hn Hp Ho Hc. cbn [step]. rewrite Hn, Hp, Hc, Ho. cbn. eexists. reflexivity.
+  - intros k c Hn Hp Hf. pose proof (i_await s Hi k c Hn Hp Hf) as E. rewrite Hl in E. discriminate.
+Qed.
+
 Definition rank (p : pc) : nat :=
   match p with PIdle => 0 | PChecked => 1 | PRegd => 2 | PSched => 3 | PAwait => 4 | PDone _ => 5 end.
 
 (* ... and every caller that is under way has an enabled step of its own that moves it strictly forward:
    within four such steps it has returned or raised (ASend raises AttributeError because writer is None) *)
-Theorem drain_progress : forall fl closers s k c, fl_ok fl -> reach fl (init closers) s -> lst s = LExit ->
+Theorem drain_progress : forall fl c0 closers s k c, fl_ok fl -> reach fl (init c0 closers) s -> lst s = LExit ->
   nth_error (calls s) k = Some c -> c_pc c <> PIdle -> (forall r, c_pc c <> PDone r) ->
   exists a s' ev c', In a [ARegister k; ASchedule k; ASend k; AComplete k] /\ step fl s a = Some (s', ev) /\
                      nth_error (calls s') k = Some c' /\ rank (c_pc c) < rank (c_pc c') /\ lst s' = LExit.
 Proof.
-  intros fl closers s k c Hfl Hr Hl Hn Hni Hnd.
-  destruct (drain_invariant fl closers s Hfl Hr Hl) as [Hw [_ Haw]].
+  intros fl c0 closers s k c Hfl Hr Hl Hn Hni Hnd.
+  destruct (drain_invariant fl c0 closers s Hfl Hr Hl) as [Hw [_ Haw]].
   assert (Hupd : forall f, nth_error (calls (updc s k f)) k = Some (f c)).
   { intros f. unfold updc, with_calls. cbn [calls]. rewrite nth_error_upd, Nat.eqb_refl, Hn. reflexivity. }
   destruct (c_pc c) eqn:Hp.
@@ -653,11 +698,11 @@ Definition fl_live : flags := mkFlags false true.
 (* calls 0 and 1 are waiting for their answers, call 2 has passed is_open(); the connection is lost; the cleanup
    loop fails future 0; call 2 registers its future; the next iteration raises RuntimeError out of _run *)
 Definition race_trace : list label :=
-  [AInvoke 0; ARegister 0; ASchedule 0; ASend 0; AInvoke 1; ARegister 1; ASchedule 1; ASend 1; AInvoke 2;
+  [AConnect true; AInvoke 0; ARegister 0; ASchedule 0; ASend 0; AInvoke 1; ARegister 1; ASchedule 1; ASend 1; AInvoke 2;
    ACut; AClean; ARegister 2; AClean; ASchedule 2; ASend 2; AComplete 0].
 
 Lemma race_refuted : exists s h,
-  exec fl_live (init_cfg 3 0) race_trace = Some (s, h) /\ quiescent fl_live s = true /\
+  exec fl_live (init_cfg true 3 0) race_trace = Some (s, h) /\ quiescent fl_live s = true /\
   check_history 3 h = false /\ lst s = LCrash /\
   exists c, nth_error (calls s) 1 = Some c /\ c_pc c = PAwait /\ c_fut c = FUnres.
 Proof.
@@ -668,8 +713,8 @@ Qed.
 
 (* the same schedule is harmless when a copy is iterated *)
 Lemma race_harmless_with_snapshot : exists s h,
-  exec (mkFlags true true) (init_cfg 3 0)
-       [AInvoke 0; ARegister 0; ASchedule 0; ASend 0; AInvoke 1; ARegister 1; ASchedule 1; ASend 1; AInvoke 2;
+  exec (mkFlags true true) (init_cfg true 3 0)
+       [AConnect true; AInvoke 0; ARegister 0; ASchedule 0; ASend 0; AInvoke 1; ARegister 1; ASchedule 1; ASend 1; AInvoke 2;
         ACut; ARegister 2; ASchedule 2; ASend 2; AComplete 0; AComplete 1] = Some (s, h) /\
   quiescent (mkFlags true true) s = true /\ check_history 3 h = true.
 Proof. eexists. eexists. split; [vm_compute; reflexivity|]. split; vm_compute; reflexivity. Qed.
